@@ -161,10 +161,28 @@ def run_c05(tier):
         for h in hangs:
             res.violation("%s on structured-random map #%d (seed %d, %s profile); regenerate with: verif-harness random-replay %d out.json prog --from %d --to %d" % (
                 h["what"], h["index"], common.seed(), profile, nr, h["index"], h["index"] + 1), {"kind": "corner", "what": h["what"], "random_index": h["index"], "profile": profile})
+    # third part, derived rather than observed: the mania pattern generators cannot reach `assert!(has_valid_column)`, an endless
+    # column search or a wrapped column, whatever the RNG draws (ManiaPatterns.tla; bound to the code by C19's trace validation)
+    pid = os.getpid()
+    for (k, maxspan) in ([(4, 3), (5, 3)] if tier == "quick" else [(1, 3), (2, 5), (3, 5), (4, 5), (5, 5), (6, 3), (7, 3), (8, 3)]):
+        cfgp = os.path.join(common.OUT, "MC_ManiaPatterns_C05_%d_%s_%d.cfg" % (k, tier, pid))
+        with open(cfgp, "w") as f:
+            f.write("CONSTANTS\n  K = %d\n  MaxSpan = %d\nINIT Init\nNEXT Next\nVIEW StateView\nINVARIANT NoPanicInRange\nINVARIANT PrevInRange\nCHECK_DEADLOCK FALSE\n" % (k, maxspan))
+        r = common.run_tlc("MC_ManiaPatterns", cfgp, workers=8 if tier == "quick" else 14, timeout=900 if tier == "quick" else 6 * 3600,
+                           name="MC_ManiaPatterns_C05_%d_%s" % (k, tier), xmx="8g")
+        res.add_tlc(r)
+        os.remove(cfgp)
+        try:
+            os.remove(r["log"])
+        except OSError:
+            pass
+        if not r["ok"]:
+            res.violation("TLC: the mania pattern generators (K=%d) can reach %s" % (k, r["violated"] or "an error"),
+                          {"kind": "tlc", "log_tail": common.tail_nonreplay(r["text"], 80)})
     res.cov.update({"evaluations": evaluations, "distinct_nontrivial": distinct, "samples": samples,
                     "rule": "TLC enumerates every map of the corner alphabet (Corners.tla) up to the object bound x global timing/difficulty setups x 4 modes; each distinct enumerated map counts once (all have at least one non-default corner class); evaluations = public calls executed on them (decode, check_suspicion, bpm, convert, difficulty, strains, attributes, gradual iteration, performance with 3-4 states, gradual performance) under the settings of the domain; plus a seeded family of structured-random maps and mutated fixture windows (each counted once) converted under every key mod"})
     res.assumptions += [
-        "exploration: termination and absence of panics are observed on the enumerated corners, not derived; maps failing check_suspicion() are skipped (precondition)",
+        "exploration: termination and absence of panics are observed on the enumerated corners, not derived - except for the mania pattern generators, whose assertion / column-range freedom is model-checked over every reachable (previous pattern, stair) state per key count; maps failing check_suspicion() are skipped (precondition)",
         "adversarial domain in release only; realistic domain in release and with overflow checks (dev profile)",
         "watchdog: a map that makes no progress for %d s or kills the process counts as a hang; RLIMIT_AS %d GiB" % (STALL_S, MEM_BYTES // 1024 ** 3),
     ]
